@@ -7,7 +7,7 @@ MAX_REPLAYS = 3             # distinct failing sites replayed natively per run
 MAX_JOBS = 12                # 62 GB / ~4 GB typical, 16 cores
 # heavier families (writer histories, 64-bit arithmetic): fewer at a time, they need 4-8 GB each
 JOBS = dict(C11=8, C12=8, C01=6, C02=6, C09=7, C13=6, C17=6, C14=8, C15=8, C10=8)
-TIMEOUT = dict(quick=900, thorough=2400, replay=3000, native=300)
+TIMEOUT = dict(quick=900, thorough=4800, replay=3000, native=300)
 
 # families whose unwinding assertions *are* the property (C07: a loop that can run more often
 # than the input allows); everywhere else a failed unwinding assertion is a harness error.
